@@ -520,17 +520,14 @@ class Forcing(BaseForce):
             # Read other forcing variables with no time interpolation
             for name in self.extra_forcing:
                 self.fields[name] = self._read_field(name, step)
-            # self.force_particles(X, Y)
-        else:
-            if step - 1 in self.steps:  # Need new fields
-                i = self.steps.index(step - 1)
+            # Prepare the interpolation towards the next forcing time
+            i = self.steps.index(step)
+            if i + 1 < len(self.steps):
                 nextstep = self.steps[i + 1]
                 stepdiff = self.stepdiff[i]
                 self.fields["u_new"], self.fields["v_new"] = self._read_velocity(
                     nextstep
                 )
-                # for name in self.extra_forcing:
-                #    self[name + "new"] = self._read_field(name, nextstep)
                 if interpolate_velocity_in_time:
                     self.fields["dU"] = (
                         self.fields["u_new"] - self.fields["u"]
@@ -538,17 +535,9 @@ class Forcing(BaseForce):
                     self.fields["dV"] = (
                         self.fields["v_new"] - self.fields["v"]
                     ) / stepdiff
-                # if interpolate_extra_forcing_in_time:
-                #    for name in self.extra_forcing:
-                #        self["d" + name] = (self[name + "new"] - self[name]) / stepdiff
-
-            # "Ordinary" time step (including self.steps+1)
-            if interpolate_velocity_in_time:
-                self.fields["u"] += self.fields["dU"]
-                self.fields["v"] += self.fields["dV"]
-            # if interpolate_extra_forcing_in_time:
-            #    for name in self.extra_forcing:
-            #        self[name] += self["d" + name]
+        elif interpolate_velocity_in_time:  # "Ordinary" time step
+            self.fields["u"] = self.fields["u"] + self.fields["dU"]
+            self.fields["v"] = self.fields["v"] + self.fields["dV"]
 
         # Update forcing values at particles
         # print("force_particles")
